@@ -160,6 +160,7 @@ where
             }
         }
         let before = tv(&sampler.positions);
+        let (mut twin_a, mut twin_b) = (sampler.clone(), sampler.clone());
         hook::enable();
         let r = guard(|| sampler.step());
         let events = hook::take();
@@ -170,6 +171,20 @@ where
             return;
         }
         let after = tv(&sampler.positions);
+        // the sampler's own integrator, run on twins from the same (x, p): where a row moved, it
+        // must sit on that end point bit for bit (selection, not arithmetic on the positions)
+        let own_endpoint: Option<Vec<f64>> = events.iter().find_map(|e| if let hook::Event::HmcStep { momenta, .. } = e { Some(momenta.clone()) } else { None }).and_then(|mom| {
+            let r = guard(|| {
+                let (xa, _, _) = twin_a.verif_leapfrog(vt2::<B>(&before, n_chains, d), vt2::<B>(&mom, n_chains, d));
+                let (xb, _, _) = twin_b.verif_leapfrog(vt2::<B>(&before, n_chains, d), vt2::<B>(&mom, n_chains, d));
+                (tv(&xa), tv(&xb))
+            });
+            match r {
+                // only usable if the integrator reproduces itself bit for bit on this target/backend
+                Ok((a, b)) if bits_eq(&a, &b) => Some(a),
+                _ => None,
+            }
+        });
         let ev = events.iter().find_map(|e| if let hook::Event::HmcStep { momenta, uniforms, n_chains: nc, dim: dd, logp_after, .. } = e { Some((momenta.clone(), uniforms.clone(), *nc, *dd, logp_after.clone())) } else { None });
         let (momenta, uniforms, nc, dd, logp_after) = match ev {
             Some(x) => x,
@@ -229,6 +244,20 @@ where
             if !stayed && !near_xn {
                 rep.violation(&format!("{sig} new-position-is-neither-x-nor-the-L-step-leapfrog-endpoint"), mon, case, detail());
                 return;
+            }
+            if !stayed {
+                match &own_endpoint {
+                    Some(own) => {
+                        let o = &own[row * d..(row + 1) * d];
+                        if !bits_eq(out, o) {
+                            rep.violation(&format!("{sig} moved-row-is-not-bit-for-bit-the-sampler's-own-leapfrog-endpoint"), mon, case,
+                                json!({"cfg": cfg, "step": stepi, "row": row, "x": x, "position_after": fjv(out), "own_leapfrog_endpoint": fjv(o), "reference_x'": fjv(&xn)}));
+                            return;
+                        }
+                        rep.count("moved_rows_bit_identical_to_own_endpoint");
+                    }
+                    None => rep.count("moved_rows_without_reproducible_own_endpoint"),
+                }
             }
             if rejected_before[row] {
                 rep.count("rows_checked_after_a_rejection");
